@@ -180,6 +180,15 @@ RcxFails(e) ==
               /\ e.kmer.flip = ~LexLess(s, RC(s)) /\ e.kmer.pal = (s = RC(s))
   IN {c \in {"R1", "R3"} : ~(CASE c = "R1" -> R1 [] c = "R3" -> R3)}
 
+\* Hamming-distance-1 neighbours (neighbors.rs): positions ascending, substituted bases ascending, the own base skipped
+Hd1Fails(e) ==
+  IF e.panic # "" THEN {"PANIC"} ELSE
+  LET s == e.s  K == Len(s)
+      Want == LET F[i \in 0..K] == IF i = 0 THEN <<>>
+                                    ELSE F[i-1] \o [j \in 1..3 |-> [s EXCEPT ![i] = SortSet(Base \ {s[i]})[j]]]
+              IN F[K]
+  IN IF e.nb = Want THEN {} ELSE {"N1"}
+
 ER(x) == [l |-> SetOf(x.l), r |-> SetOf(x.r)]
 ExtsFails(e) ==
   LET x == ER(e)  oth == ER(e.other)
@@ -259,6 +268,7 @@ Fails(e) ==
     [] e.op = "lop"     -> LopFails(e)
     [] e.op = "rcx"     -> RcxFails(e)
     [] e.op = "exts"    -> ExtsFails(e)
+    [] e.op = "hd1"     -> Hd1Fails(e)
     [] e.op = "extract" -> ExtractFails(e)
     [] e.op = "ascii"   -> AsciiFails(e)
     [] e.op = "timeout" -> {"TIMEOUT"}
